@@ -537,9 +537,9 @@ package main
 //@   modifies inferred
 //@   ensures [C06] tags_owner_only: t.cat == types.TopicCatGrp && old(t.owner) != asUid ==> err != nil && ref(t.tags) == old(ref(t.tags)) && len(t.tags) == old(len(t.tags))
 //@   assert at call store.TopicsPersistenceInterface.Update [C06] tags_store_owner_only: t.cat == types.TopicCatGrp && t.owner == asUid
-//@   assert at call store.TopicsPersistenceInterface.Update [C19] restricted_unchanged: restrictedTagsSame && restrictedTagsChecked == ref(tags)
-//@   assert at call store.UsersPersistenceInterface.Update [C19] restricted_unchanged_me: restrictedTagsSame && restrictedTagsChecked == ref(tags)
-//@   ensures [C19] cache_follows_check: ref(t.tags) != old(ref(t.tags)) ==> restrictedTagsSame && err == nil && ref(t.tags) == restrictedTagsChecked
+//@   assert at call store.TopicsPersistenceInterface.Update [C08,C19] restricted_unchanged: restrictedTagsSame && restrictedTagsChecked == ref(tags)
+//@   assert at call store.UsersPersistenceInterface.Update [C08,C19] restricted_unchanged_me: restrictedTagsSame && restrictedTagsChecked == ref(tags)
+//@   ensures [C08,C19] cache_follows_check: ref(t.tags) != old(ref(t.tags)) ==> restrictedTagsSame && err == nil && ref(t.tags) == restrictedTagsChecked
 
 //@ func (t *Topic) replySetDesc(sess *Session, asUid types.Uid, asChan bool, authLevel auth.Level, msg *ClientComMessage) (err error)
 //@   ensures [C13] answered: outTotal > old(outTotal)
